@@ -16,8 +16,9 @@ static void c16_int_check(Ctx& ctx, const Args& a)
   bool conv = m_int_in_range(n); int64_t fn = conv ? (int64_t)(n * 65536) : 0;
   bool exact_scalar = (op == 2) || (op == 3 && form != 1);     // fixed*int, int*fixed, fixed/int use the integer exactly
   if (!conv && !exact_scalar) { ctx.skip(); return; }           // t does not convert to fixed_t: outside the property
-  std::string nm = form == 2 ? std::string(kOpName[op]) + "eq_" + t.tok : std::string(kOpName[op]) + (form == 0 ? "_r_" : "_l_") + t.tok;
-  int id = named_entry(nm); int idr = named_entry(std::string(kOpName[op]) + "_r_" + t.tok);
+  static int idtab[4][3][8]; static bool idinit = false;
+  if (!idinit) { for (int o = 0; o < 4; ++o) for (int f = 0; f < 3; ++f) for (int k = 0; k < NITYPES; ++k) idtab[o][f][k] = named_entry(f == 2 ? std::string(kOpName[o]) + "eq_" + ITYPES[k].tok : std::string(kOpName[o]) + (f == 0 ? "_r_" : "_l_") + ITYPES[k].tok); idinit = true; }
+  int id = idtab[op][form][ti]; int idr = idtab[op][0][ti];
   ctx.cls(kOpName[op]); ctx.cls(form == 0 ? "a-op-t" : form == 1 ? "t-op-a" : "a-op=-t"); ctx.cls(t.tok);
   if (!conv) { ctx.cls("|t|>=2^31(exact-scalar)"); ctx.nontriv(); }
   if (n >= ((i128)1 << 63)) { ctx.cls("unsigned-t>=2^63"); ctx.nontriv(); }
@@ -55,8 +56,9 @@ static void c16_f32_check(Ctx& ctx, const Args& a)
   if (a.size() != 4 || a[0] < 0 || a[0] > 3 || a[1] < 0 || a[1] > 2 || !m_finite128(a[2]) || a[3] < 0 || a[3] > 0xffffffffll) { ctx.skip(); return; }
   int op = (int)a[0], form = (int)a[1]; int64_t x = a[2]; float v = bits_f32((uint32_t)a[3]);
   if (!(std::fabs((double)v) < 2147483647.0)) { ctx.skip(); return; }     // does not convert: outside the property
-  std::string nm = form == 2 ? std::string(kOpName[op]) + "eq_f32" : std::string(kOpName[op]) + (form == 0 ? "_r_f32" : "_l_f32");
-  int id = named_entry(nm); int idr = named_entry(std::string(kOpName[op]) + "_r_f32");
+  static int idtab[4][3]; static bool idinit = false;
+  if (!idinit) { for (int o = 0; o < 4; ++o) for (int f = 0; f < 3; ++f) idtab[o][f] = named_entry(f == 2 ? std::string(kOpName[o]) + "eq_f32" : std::string(kOpName[o]) + (f == 0 ? "_r_f32" : "_l_f32")); idinit = true; }
+  int id = idtab[op][form]; int idr = idtab[op][0];
   ctx.cls(kOpName[op]); ctx.cls(form == 0 ? "a-op-t" : form == 1 ? "t-op-a" : "a-op=-t");
   if (v != std::floor(v)) { ctx.cls("non-integral-float"); ctx.nontriv(); }
   if ((op == 1 || op == 3) && form == 1) { ctx.cls("non-commutative-mirrored"); ctx.nontriv(); }
@@ -88,7 +90,9 @@ static void c16_f64_check(Ctx& ctx, const Args& a)
   volatile double dx = (double)x / 65536.0;    // double(a): correctly rounded int64 -> double, exact scaling
   volatile double l = form == 0 ? dx : t, r = form == 0 ? t : dx, e;
   switch (op) { case 0: e = l + r; break; case 1: e = l - r; break; case 2: e = l * r; break; default: e = l / r; }
-  int id = named_entry(std::string(kOpName[op]) + (form == 0 ? "_r_f64" : "_l_f64"));
+  static int idtab[4][2]; static bool idinit = false;
+  if (!idinit) { for (int o = 0; o < 4; ++o) for (int f = 0; f < 2; ++f) idtab[o][f] = named_entry(std::string(kOpName[o]) + (f == 0 ? "_r_f64" : "_l_f64")); idinit = true; }
+  int id = idtab[op][form];
   ctx.cls(kOpName[op]); ctx.cls(form == 0 ? "a-op-t" : "t-op-a");
   double tt = t; if (std::isnan(tt) || std::isinf(tt)) { ctx.cls("non-finite-double"); ctx.nontriv(); }
   if ((op == 1 || op == 3) && form == 1) { ctx.cls("non-commutative-mirrored"); ctx.nontriv(); }
